@@ -13,6 +13,14 @@ CHECKS = {
            "judged by the contract in the statement (covers, single arc, <= hull, minimal when < L/2).",
       design="3/C04"),
 }
+CHECKS["C08"] = dict(category="exploration",
+      technique="Hypothesis gene layouts x exhaustive query enumeration against a brute-force set-of-bases filter; generated build-order interleavings",
+      text="For generated gene layouts (nested, same start, overlapping, multi-exon, origin-spanning) every query location of a small "
+           "record is asked and compared with a brute-force filter; larger records are sampled; areas are built under generated "
+           "interleavings of add_cds/add_protocluster/add_subregion/create_* and membership, gene->region links, definition genes and "
+           "origin sections are compared with model containment. Sampled layouts, exhaustive queries per small layout.",
+      note="Trusted: C04 containment/overlap model. Candidate/region creation failures are C05/C06's business and are excluded (counted) here.",
+      design="3/C08")
 NOT_YET = {}
 
 def main():
